@@ -28,6 +28,7 @@ COQKIND = {"buf": "KBuf", "bio": "KBio", "srw": "KSrw", "sio": "KSio", "ssw": "K
 KNOWN_BYPASS = "C17:streamreader:bypass-stale-position"
 SIO_KEY = "C17:streamable-io:seek-reports-success-when-not-honoured"
 ICE_KEY = "C17:icecast:chunk-larger-than-checked-room"
+NEG_KEY = "C17:buffer:negative-seek-accepted"
 ICE_LEN = 1 << 24          # the HTTP body never ends in the icecast cases
 CASE_TIMEOUT = 60          # seconds of wall clock for one history on the implementation
 
@@ -197,17 +198,22 @@ def do_op(kind, w, buf, src, op, digit):
     if t == "fits":
         return ("bool", bool(buf.fits(op[1])))
     if t == "seek":
-        p, start = op[1], op[2]
+        p, wh = op[1], whence(op[2])
         if kind == "buf":
             return ("bool", bool(buf.seek(p)))
         if kind in ("bio", "ssw"):
-            return ("num", w.seek(p, io.SEEK_SET if start else io.SEEK_CUR))
-        org = miniaudio.SeekOrigin.START if start else miniaudio.SeekOrigin.CURRENT
+            return ("num", w.seek(p, (io.SEEK_SET, io.SEEK_CUR, io.SEEK_END)[wh]))
+        org = miniaudio.SeekOrigin.START if wh == 0 else miniaudio.SeekOrigin.CURRENT   # miniaudio has no END
         return ("bool", bool(w.seek(p, org)))
     if t == "read":
         src.cap = op[2]
         return ("data", bytes(w.read(op[1])))
     raise ValueError(op)
+
+
+def whence(x):
+    """Third field of a seek op: True = START/SEEK_SET, False = CURRENT/SEEK_CUR, 2 = SEEK_END."""
+    return 0 if x is True else (1 if x is False else 2)
 
 
 def snapshot(buf, src):
@@ -346,12 +352,18 @@ def oracle(case, ops, obs):
                 return fail("C17:%s:add-count" % name, "add() reports more bytes than offered", i)
             acc.extend(flat[:k])
         elif t == "seek":
-            p, start = op[1], op[2]
-            target = p if start else c + p
+            p, wh = op[1], whence(op[2])
+            start = wh == 0
+            stream_len = len(acc) if kind == "buf" else length
+            target = (p, c + p, stream_len + p)[wh]
             if res[0] == "bool":
                 ok = res[1]
             else:
                 ok = res[1] == target
+            if ok and target < 0:
+                # no byte of the source has a negative offset: this seek cannot be honoured
+                return fail(NEG_KEY, "seek(%d, %s) at op %d reports success for offset %d (buffer.position is now %d)"
+                            % (p, ("START", "CURRENT", "END")[wh], i, target, ob["pos"]), i)
             if ok:
                 if taint is None and kind in ("srw", "ssw") and prev_pos != c:
                     taint = (KNOWN_BYPASS, "seek(%d) at op %d reported success while buffer.position (%d) was stale "
@@ -359,7 +371,7 @@ def oracle(case, ops, obs):
                 if taint is None and kind == "sio" and ob["pos"] != target:
                     taint = (SIO_KEY, "StreamableIOBaseWrapper.seek(%d, %s) at op %d returned True although the wrapped "
                              "BufferedIOBaseWrapper did not move (position %d)"
-                             % (p, "START" if start else "CURRENT", i, ob["pos"]))
+                             % (p, ("START", "CURRENT", "END")[wh], i, ob["pos"]))
                 if target != c or pending_seek is not None:
                     pending_seek = i
                 c = target
@@ -429,6 +441,8 @@ def c_op(op):
     if t == "fits":
         return "OFits %s" % cnum(op[1])
     if t == "seek":
+        if op[1] < 0 or whence(op[2]) == 2:
+            return "OSeekX (%d)%%Z %d" % (op[1], whence(op[2]))
         return "OSeek %s %s" % (cnum(op[1]), common.cbool(op[2]))
     if t == "prot":
         return "OProt %s" % common.cbool(op[1])
@@ -1482,10 +1496,19 @@ def gen_wrapper_case(rng, kind, size, head, nops):
                 pos += n
         elif r < 0.90:
             p = pick_p(rng, size, head, pos)
-            start = rng.random() < 0.93
-            ops.append(("seek", p if start else rng.choice([0, 0, 1, p]), start))
-            if start and p < head:
-                pos = p
+            r2 = rng.random()
+            if r2 < 0.72:
+                ops.append(("seek", p, True))
+                if p < head:
+                    pos = p
+            elif r2 < 0.80:       # absolute, before the start of the stream
+                ops.append(("seek", -rng.choice([1, 1, 2, pos, pos + 1, size, rng.randint(1, 2 * size)]) or -1, True))
+            elif r2 < 0.92:       # relative to the current position: back (also to before the start), nowhere, forward
+                ops.append(("seek", rng.choice([0, 0, 1, p, -1, -pos, -pos - 1, -(pos // 2) - 1, -rng.randint(1, 2 * size + 2),
+                                                length, length + 1]), False))
+            else:                 # relative to the end (io-style wrappers only; miniaudio has START and CURRENT)
+                off = rng.choice([0, -1, -length, -length - 1, 1, -rng.randint(0, length + 2), pos - length])
+                ops.append(("seek", off, 2 if kind in ("bio", "ssw") else False))
         else:
             ops.append(("prot", rng.random() < 0.3))
     return {"kind": kind, "size": size, "head": head, "prot": prot, "len": length, "ops": ops,
@@ -1511,8 +1534,10 @@ def gen_buf_case(rng, size, head, nops):
             pos += n
         elif r < 0.88:
             p = pick_p(rng, size, head, pos)
+            if rng.random() < 0.15:
+                p = -rng.choice([1, 1, 2, max(1, pos), size, rng.randint(1, 2 * size)])
             ops.append(("seek", p, True))
-            if p < head:
+            if 0 <= p < head:
                 pos = p
         elif r < 0.94:
             ops.append(("prot", rng.random() < 0.4))
@@ -1526,10 +1551,11 @@ def exhaustive_cases(kind, size, head, prot, maxlen):
     """Every history up to maxlen over a small alphabet, for a tiny buffer."""
     if kind == "buf":
         alpha = [("addf", 1), ("addf", size), ("addf", size + 1), ("get", 1), ("get", 2), ("get", size + 1),
-                 ("seek", 0, True), ("seek", 1, True), ("seek", 2, True), ("prot", False)]
+                 ("seek", 0, True), ("seek", 1, True), ("seek", -1, True), ("prot", False)]
     else:
         alpha = [("read", 1, None), ("read", 2, None), ("read", size + 1, None), ("read", 3, 1), ("read", -1, None),
-                 ("seek", 0, True), ("seek", 1, True), ("seek", 2, True), ("seek", size, True), ("prot", False)]
+                 ("seek", 0, True), ("seek", 1, True), ("seek", size, True), ("seek", -1, True),
+                 ("seek", -1, False), ("prot", False)]
     length = 2 * size + 3
     frontier = [[]]
     for _ in range(maxlen):
@@ -1608,6 +1634,12 @@ def evaluate(ctx, case, origin, coq_items):
                      "returned": [o["res"][1] if o["res"][0] == "data" else o["res"][-1] for o in obs[:14]]})
     # quick tier: the exhaustive tiny-buffer histories are all judged by the oracle, every second one is also
     # compared with the model in Coq (they share prefixes heavily); thorough compares all of them
+    negative = any(o["pos"] < 0 or o["size"] < 0 or o["rem"] < 0 or (o["res"][0] == "num" and o["res"][1] < 0) for o in obs)
+    if negative:
+        if not err:
+            ctx.tie_broken("correspondence:%s" % KEY[case["kind"]], "negative position/size observed: " + json.dumps(
+                {"case": case, "ops_executed": ops}, default=list)[:2000])
+        return
     if ctx.thorough or origin != "exhaustive" or case["kind"] == "race" or ctx.evaluations % 2 == 0 or err:
         coq_items.append((case, ops, obs))
 
